@@ -100,6 +100,23 @@ def check_selectors(chk, rep, repo):
     chk.floor("calls into KNNSubgraph.create_arcs / calculate_pdf", n_calls, 6)
 
 
+def _values(t):
+    """The value of a term, through conversions that keep every element as it is: np.asarray(v) / np.asanyarray(v) /
+    np.array(v) without a dtype are v; a selection whose arms agree is that arm."""
+    if not isinstance(t, tuple) or not t:
+        return t
+    t = tuple(_values(x) if isinstance(x, tuple) else x for x in t)
+    if t[0] == "call" and t[1] in (("mod", "numpy.asarray"), ("mod", "numpy.asanyarray")) and len(t[2]) == 1 and not t[3]:
+        return t[2][0]
+    if t[0] == "alloc" and t[1] in ("numpy.array", "numpy.asarray") and len(t[2]) == 1 and not t[3]:
+        return t[2][0]
+    if t[0] == "sel" and t[2] == t[3]:
+        return t[2]
+    if t[0] == "old":
+        return t[1]
+    return t
+
+
 def check_row_ids(chk, rep, repo, only=None, floor=2):
     n = 0
     # a private helper (other than the graph builders themselves) is analysed inside the functions that call it, where
@@ -135,12 +152,13 @@ def check_row_ids(chk, rep, repo, only=None, floor=2):
             n += 1
             args = dict(zip(["idx", "label", "features"], ev.value[2]))
             args.update(dict(ev.value[3]))
-            idx, feats = args.get("idx"), args.get("features")
+            idx, feats = _values(args.get("idx")), _values(args.get("features"))
             if idx is not None and idx[0] == "sel":
                 # `idx = i if I is None else I[i].item()`: each arm under its own condition
                 arms = [(idx[2], ev.guards + ((idx[1], True),)), (idx[3], ev.guards + ((idx[1], False),))]
             else:
                 arms = [(idx, ev.guards)]
+            arms = [(a, tuple((_values(c0), pl) for c0, pl in g)) for a, g in arms]
             verdicts = [_row_id_ok(fi, a, feats, g) for a, g in arms]
             ok = all(v[0] for v in verdicts)
             detail = next((v[1] for v in verdicts if not v[0]), "")
@@ -293,6 +311,16 @@ def check_builders(chk, rep, repo):
     acc = registry_accessor(repo)
     same = _private_same_module(fi)
     w = _row_fill_view(Walker(repo, fi, inline=lambda f: same(f) or acc(f)))
+    # `data = np.asarray(data)` keeps every row as it is; argument validation dominates the body without being part of it
+    import dataclasses
+    import types
+    from ..rules_premise import validation_guard
+    _raises = [e for e in w.events if e.kind == "raise"]
+    w = types.SimpleNamespace(entry=w.entry, loops={lid: dataclasses.replace(l2, domain=_values(l2.domain)) for lid, l2 in w.loops.items()},
+                              events=[dataclasses.replace(
+                                  e, target=_values(e.target), value=_values(e.value), args=tuple(_values(a) for a in (e.args or ())),
+                                  guards=tuple((_values(g), pl) for g, pl in e.guards if not validation_guard(_raises, g, pl)))
+                                  for e in w.events])
     st = [e for e in _nested_index(w.events) if e.kind == "store" and e.target[0] == "idx" and e.target[1][0] == "idx"
           and e.target[1][1][0] == "alloc"]
     ok = False
